@@ -22,6 +22,7 @@ package dot
 
 import (
 	"fmt"
+	"html"
 	"reflect"
 )
 
@@ -428,21 +429,27 @@ func (g *Group) String() string {
 func (r *Result) Attributes() string {
 	switch {
 	case r.Name != "":
-		return fmt.Sprintf(`label=<%v<BR /><FONT POINT-SIZE="10">Name: %v</FONT>>`, r.Type, r.Name)
+		return fmt.Sprintf(`label=<%v<BR /><FONT POINT-SIZE="10">Name: %v</FONT>>`, htmlText(r.Type), htmlText(r.Name))
 	case r.Group != "":
-		return fmt.Sprintf(`label=<%v<BR /><FONT POINT-SIZE="10">Group: %v</FONT>>`, r.Type, r.Group)
+		return fmt.Sprintf(`label=<%v<BR /><FONT POINT-SIZE="10">Group: %v</FONT>>`, htmlText(r.Type), htmlText(r.Group))
 	default:
-		return fmt.Sprintf(`label=<%v>`, r.Type)
+		return fmt.Sprintf(`label=<%v>`, htmlText(r.Type))
 	}
 }
 
 // Attributes composes and returns a string of the Group node's attributes.
 func (g *Group) Attributes() string {
-	attr := fmt.Sprintf(`shape=diamond label=<%v<BR /><FONT POINT-SIZE="10">Group: %v</FONT>>`, g.Type, g.Name)
+	attr := fmt.Sprintf(`shape=diamond label=<%v<BR /><FONT POINT-SIZE="10">Group: %v</FONT>>`, htmlText(g.Type), htmlText(g.Name))
 	if g.ErrorType != noError {
 		attr += " color=" + g.ErrorType.Color()
 	}
 	return attr
+}
+
+// htmlText renders v for use inside an HTML-like DOT label (label=<...>),
+// where <, > and & are markup.
+func htmlText(v interface{}) string {
+	return html.EscapeString(fmt.Sprint(v))
 }
 
 // Color returns the color representation of each ErrorType.
